@@ -18,4 +18,4 @@ CODE ANCHORS: files {p['anchors']['files']}; mechanisms {[m['name'] + ' @ ' + m[
 TASK: find inputs on which the library, AS IT IS in the worktree, violates this property. Read the anchored code carefully and look for corner cases inside the quantified domain: unusual but legal class shapes (subclassing combinations, lazy vs eager bootstrap, keys, preparers, invalidated_by, init=False, default factories, hooks such as __post_init__/__post_copy__), unusual argument forms and flag combinations, falsy / equal-but-different-type / duplicate values, negative and out-of-range indices, operations from non-initial states, failure paths (callbacks that raise), re-entrancy, and thread interleavings where the property mentions them. Try things out by running small programs - do not report anything you have not reproduced.
 
 For every DISTINCT genuine violation (different mechanism, not the same bug through a different helper) write {out}/finding<i>.py: a small standalone program (run as `PYTHONPATH=<tree> /venv/bin/python finding<i>.py`) that states in a docstring which sentence of the property is violated and why the input is inside the quantified domain, and that exits 0 if the library behaves as the property demands and non-zero (assertion naming the expectation) as the library behaves today. Also write {out}/finding<i>.json: {{"property": "{pid}", "summary": "...", "mechanism": "file:function and what goes wrong", "suggested_fix": "..."}}.
-Be strict about what counts: behaviour the property text leaves open, behaviour outside the quantified domain, or direct mutation the property excludes is NOT a finding. Quality over quantity: up to 4 findings. (The library has already been searched and repaired once for this property: expect the obvious corners to be clean and dig deeper - interactions between features, less common call forms, state left behind by failed or unusual operations.) If after a thorough search (at least a dozen distinct corner-case experiments) you find nothing, say so and list briefly what you tried. Finish with a short report.""")
+Be strict about what counts: behaviour the property text leaves open, behaviour outside the quantified domain, or direct mutation the property excludes is NOT a finding. Quality over quantity: up to 4 findings. (The library has already been searched and repaired twice for this property: expect the obvious corners to be clean and dig deeper - interactions between features, less common call forms, state left behind by failed or unusual operations.) If after a thorough search (at least a dozen distinct corner-case experiments) you find nothing, say so and list briefly what you tried. Finish with a short report.""")
